@@ -321,7 +321,14 @@ func (tm *Termer) of(v ssa.Value) *Term {
 		return tm.callTerm(&v.Call, v)
 	case *ssa.MakeClosure:
 		fn, _ := v.Fn.(*ssa.Function)
-		return &Term{Op: "closure", Name: funcName(fn)}
+		ct := &Term{Op: "closure", Name: funcName(fn)}
+		for _, b := range v.Bindings {
+			if _, isAlloc := b.(*ssa.Alloc); isAlloc && tm.visited[b] {
+				continue
+			}
+			ct.Args = append(ct.Args, tm.Of(b))
+		}
+		return ct
 	case *ssa.MakeSlice:
 		return &Term{Op: "make", Name: shortType(v.Type()), Args: []*Term{tm.Of(v.Len)}}
 	case *ssa.MakeMap:
